@@ -136,10 +136,10 @@ CHECKS["C09"] = dict(
 
 CHECKS["C10"] = dict(
     engine="glyf",
-    technique="PARTIAL: independent decoders written in TLA+ and evaluated by TLC on raw table bytes, compared with what the font package decodes: Glyf.tla (TrueType simple glyphs - flags/repeats, coordinate deltas, implied mid-points, contours as cyclic segment lists, extents, hmtx tail rule - and composite glyphs made of simple components placed by x/y offsets) and CmapBytes.tla (cmap header and encoding records, choice of the Unicode subtable, formats 4/6/10/12/13 decoded at every point where either function can change, against NominalGlyph over all 0x110000 code points)",
+    technique="PARTIAL: independent decoders written in TLA+ and evaluated by TLC on raw table bytes, compared with what the font package decodes: Glyf.tla (TrueType simple glyphs - flags/repeats, coordinate deltas, implied mid-points, contours as cyclic segment lists, extents, hmtx tail rule - and composite glyphs made of simple components placed by x/y offsets) and CmapBytes.tla (cmap header and encoding records, choice of the Unicode subtable, formats 4/6/10/12/13 decoded at every point where either function can change, against NominalGlyph over all 0x110000 code points) and Avar.tla (fvar clamp / scaling and avar segment maps in exact integer arithmetic, against Font.NormalizeVariations on corner, default, out-of-range, mid-point and random design coordinates of every variable corpus face)",
     category="model_checking", design_ref="DESIGN.md §5 C10, §6",
-    text="The property names reference decoders that do not exist in this sandbox; what the TLA+ family can supply is an independent decoder for the integer-only, case-rich part. For every sampled glyph of every TrueType corpus font TLC decodes the raw bytes and checks Outline (each contour equal up to rotation), Extents, Advance and Upem; for every face of the sampled corpus files (all of them in the thorough tier) TLC decodes the raw cmap table and checks CmapDecode (character-to-glyph mapping equal on every code point). A corrupted copy of one recorded event must be rejected on every run (sensitivity self-test), else the check is undecided.",
-    note="PARTIAL CLAIM: CFF/CFF2 outlines, scaled / point-anchored / nested composite glyphs, variable-font instances (gvar/HVAR/avar), symbol / Macintosh-encoded cmaps and cmap formats 0/2/14 are NOT covered. Trusts the harness's slicing of glyf by loca and TLC.")
+    text="The property names reference decoders that do not exist in this sandbox; what the TLA+ family can supply is an independent decoder for the integer-only, case-rich part. For every sampled glyph of every TrueType corpus font TLC decodes the raw bytes and checks Outline (each contour equal up to rotation), Extents, Advance and Upem; for every face of the sampled corpus files (all of them in the thorough tier) TLC decodes the raw cmap table and checks CmapDecode (character-to-glyph mapping equal on every code point); for every variable corpus face TLC normalizes design coordinate vectors from the raw fvar / avar tables and checks Normalized. A corrupted copy of one recorded event must be rejected on every run (sensitivity self-test), else the check is undecided.",
+    note="PARTIAL CLAIM: CFF/CFF2 outlines, scaled / point-anchored / nested composite glyphs, variation deltas of variable-font instances (gvar/HVAR/MVAR: advances and extents at non-default coordinates), symbol / Macintosh-encoded cmaps and cmap formats 0/2/14 are NOT covered. Trusts the harness's slicing of glyf by loca and TLC.")
 
 NOT_YET = {}
 NA = {
